@@ -108,6 +108,8 @@ def entry_state(ex, spec, ptypes):
         st.env[g] = named(ty, 'in_' + g)
     for cv, ty in spec.get('captured', {}).items():
         st.env[cv] = named(ty, 'in_' + cv)
+    for gv, ty in spec.get('globals', {}).items():
+        st.env[gv] = named(ty, 'in_' + gv)
     for v in list(st.env.values()):
         for f in ex.wf(v):
             st.pc.append(f)
